@@ -1,5 +1,7 @@
 import Okane.Drv.C16
 import Okane.Model.ImportCamt
+import Okane.Model.ImportCamtXml
+import Okane.Model.ImportCamtXmlRender
 /-!
 Driver for C18 (ISO Camt053 import).  Case line (built by gen/c18.py from the statement structure it rendered
 as XML, and from the regex matches computed for the case):
@@ -12,6 +14,12 @@ as XML, and from the regex matches computed for the case):
   DTL  = `(dtl (ref?) AMT C|D ((AMT ((src tgt neg mant scale)?))?) (chgs CHG...) (info (key value)...))`
 
 Output as in Drv/C16.lean.
+
+XML mode (`src=` present): `<id> cfg=CFG src=<enc XML text> caps=(...) fund=(FUND?) [stmts=(STMT...)]` — the model
+reads the XML text itself (`CamtXml.camtImportXml`: `Model/Xml.lean` reader + `Model/ImportCamtXml.lean` decoder +
+`camtImport`).  The output carries two more fields: `decoded=ok:<number of statements>|xml|unsupported:<enc why>` and,
+when `stmts=` was given, `xcheck=same|differs|undecodable` (the model's decoded statements against the structure the
+generator rendered).  `drv c18 render` prints the canonical rendering of `stmts=` (see `stepRender`).  What the model declines is printed as `import=(err UnknownFormat)` with `decoded=unsupported:…`.
 -/
 namespace Okane.Drv.C18
 open Okane Okane.Drv Okane.Drv.C16 Okane.Import Sexp
@@ -108,8 +116,36 @@ def decCamtCfg : Sexp → Option CamtCfg
     pure ⟨account, op, order, rules⟩
   | _ => none
 
+/-- XML mode: the model decodes the text itself -/
+def stepXml (id : String) (fs : List (String × String)) (src : String) : String :=
+  match field fs "cfg", field fs "caps", field fs "fund" with
+  | some cfg, some caps, some fund =>
+    match (Sexp.parse cfg).bind decCamtCfg, Sexp.decode src, (Sexp.parse caps).bind decCaps, (Sexp.parse fund).bind decFund with
+    | some cfg, some text, some caps, some fund =>
+      let dec := CamtXml.decodeCamt text
+      let decoded := match dec with
+        | .ok stmts => s!"ok:{stmts.length}"
+        | .error .xml => "xml"
+        | .error (.unsupported why) => s!"unsupported:{Sexp.encode why}"
+      let xcheck := match field fs "stmts" with
+        | none => ""
+        | some st =>
+          match (Sexp.parse st).bind (decList decStmt), dec with
+          | some want, .ok got => if want == got then " xcheck=same" else " xcheck=differs"
+          | some _, .error _ => " xcheck=differs"
+          | none, _ => " xcheck=undecodable"
+      report id cfg.account fund (CamtXml.camtImportXml (capsFn caps) cfg text) false ++ s!" decoded={decoded}" ++ xcheck
+    | none, _, _, _ => s!"{id} undecodable cfg"
+    | _, none, _, _ => s!"{id} undecodable src"
+    | _, _, none, _ => s!"{id} undecodable caps"
+    | _, _, _, none => s!"{id} undecodable fund"
+  | _, _, _ => s!"{id} bad-case"
+
 def step (line : String) : String :=
   let (id, fs) := splitFields line
+  match field fs "src" with
+  | some src => stepXml id fs src
+  | none =>
   match field fs "cfg", field fs "stmts", field fs "caps", field fs "fund" with
   | some cfg, some stmts, some caps, some fund =>
     match (Sexp.parse cfg).bind decCamtCfg, (Sexp.parse stmts).bind (decList decStmt),
@@ -122,6 +158,16 @@ def step (line : String) : String :=
     | _, _, _, none => s!"{id} undecodable fund"
   | _, _, _, _ => s!"{id} bad-case"
 
-def main (_args : List String) : IO Unit := forEachLine step
+/-- `drv c18 render`: `<id> stmts=(STMT...)` -> `<id> renderable=0|1 xml=<enc CamtXml.render stmts>` (the canonical
+rendering of the round-trip theorem; the generator imports it with the real code) -/
+def stepRender (line : String) : String :=
+  let (id, fs) := splitFields line
+  match (field fs "stmts").bind fun s => (Sexp.parse s).bind (decList decStmt) with
+  | some stmts =>
+    s!"{id} renderable={if CamtXml.Renderable stmts then "1" else "0"} xml={Sexp.encode (CamtXml.render stmts)}"
+  | none => s!"{id} undecodable stmts"
+
+def main (args : List String) : IO Unit :=
+  if args == ["render"] then forEachLine stepRender else forEachLine step
 
 end Okane.Drv.C18
